@@ -124,6 +124,15 @@ RLExpect(c) ==
     [] op = "rl_ufunc" -> RLUfunc(c[2], c[3], c[4])
     [] op = "rl_reduce" -> RLReduce(c[2], c[3], c[4])
     [] op = "rl_concat" -> RLConcat(c[2])
+    \* from_array of a LONG array given run by run (<<value, length>> pairs; neighbouring pairs may hold equal values).  The promised
+    \* encoding is unique - a boundary exactly where the value changes - and is computed here on the runs, without unfolding them:
+    \* <<"rlenc", dt, total length, boundaries, values>>
+    [] op = "rl_encode_runs" ->
+         LET dt == c[2]  runs == c[3]
+             keep == SelectSeq(Range(Len(runs)), LAMBDA i : i = 0 \/ ~SameVal(dt, runs[i + 1][1], runs[i][1]))      \* 0-based run indices
+             Off(i) == SumSeq([j \in 1..i |-> runs[j][2]])                                                         \* cells before run i+1
+         IN IF runs = <<>> \/ \E i \in DOMAIN runs : runs[i][2] < 1 THEN R_UNSPEC
+            ELSE <<"rlenc", dt, Off(Len(runs)), Append([k \in DOMAIN keep |-> Off(keep[k])], Off(Len(runs))), [k \in DOMAIN keep |-> runs[keep[k] + 1][1]]>>
     \* astype: every element converted as ndarray.astype converts it (beyond the listed properties: part of the same arithmetic family)
     [] op = "rl_astype" -> IF c[3] = <<>> \/ \E i \in DOMAIN c[3] : ~CastOK(c[2], c[4], c[3][i]) THEN R_UNSPEC
                            ELSE <<"rl", c[4], [i \in DOMAIN c[3] |-> Cast(c[2], c[4], c[3][i])], FALSE>>
